@@ -8,19 +8,29 @@ Targets == UNION {[1..k -> Seg] : k \in 1..MaxLen}
 \* at most one ABS splice, and it only makes sense at the front (after the leading slashes)
 Sensible(s) == \A i \in DOMAIN s : s[i] = "ABS" => i = 1
 Leads == {1, 2, 3, 4}
-Encs == {"plain", "pctdot", "pctslash", "mixedcase", "allpctslash", "dblpctdot", "dblpctslash", "dblboth"}
+Encs == {"plain", "pctdot", "pctslash", "mixedcase", "allpctslash", "dblpctdot", "dblpctslash", "dblboth",
+         "fwdot", "fwboth", "leaderdot"}
 \* doubly encoded: after the ONE decoding step a server owes a request target the dots and
 \* slashes are still escaped, i.e. the target names one (odd) literal member of the root -
 \* only the safety clauses apply, there is no dot-segment normal form to compare with
-Dbl == {"dblpctdot", "dblpctslash", "dblboth"}
+\* look-alikes: dots / slashes written with Unicode compatibility characters (fullwidth full
+\* stop U+FF0E, fullwidth solidus U+FF0F, one / two dot leader U+2024 U+2025) are ordinary
+\* characters of a literal name - likewise only the safety clauses apply
+Dbl == {"dblpctdot", "dblpctslash", "dblboth", "fwdot", "fwboth", "leaderdot"}
 Cases == {[segs |-> s, lead |-> l, enc |-> e, norm |-> IF e \in Dbl THEN <<"LITERAL">> ELSE Norm(s), rawescapes |-> RawEscapes(s)] :
             s \in {t \in Targets : Sensible(t)}, l \in Leads, e \in Encs}
 \* keep the table finite but not wasteful: encodings matter only with dot segments,
 \* several leading slashes mostly with ABS or a dot-dot start
 Keep(c) == /\ (c.enc # "plain" => \E i \in DOMAIN c.segs : c.segs[i] \in {".", ".."})
            /\ (c.lead > 1 => c.segs[1] \in {"ABS", "..", "N1"})
-           /\ (c.enc \in {"pctslash", "allpctslash", "dblpctslash", "dblboth"} => Len(c.segs) >= 2)
-Table == {c \in Cases : Keep(c)}
+           /\ (c.enc \in {"pctslash", "allpctslash", "dblpctslash", "dblboth", "fwboth"} => Len(c.segs) >= 2)
+\* a second family: an existing collection, then ONE last segment that spells "../../x" with
+\* escaped or look-alike separators and dots (the member name a store would be handed)
+TailEncs == {"pcttail", "dbltail", "fwtail", "leadertail", "mixtail"}
+Ups(k) == [j \in 1..k |-> ".."]
+TailCases == {[segs |-> <<"N1">> \o Ups(k) \o <<"F">>, lead |-> 1, enc |-> e, norm |-> <<"LITERAL">>,
+               rawescapes |-> RawEscapes(<<"N1">> \o Ups(k) \o <<"F">>)] : k \in 1..3, e \in TailEncs}
+Table == {c \in Cases : Keep(c)} \cup TailCases
 
 VARIABLE x
 Init == x = 0
